@@ -414,8 +414,4 @@ def run(chk):
     from . import c03
     from ..rt import EvalExpr
     chk.rule('C03.T', 'shared with C03: datetime + number (milliseconds, normalised operand) and datetime - datetime (total_seconds * 1000)')
-    ee = EvalExpr(chk.repo, 'C03.T')
-    bs = ee.binary()
-    before = len(chk.instances)
-    chk.guard('C03.T', c03.check_table, chk, ee, bs)
-    chk.instances[before:] = [i for i in chk.instances[before:] if ('date' in i['instance'] and ("'+'" in i['instance'] or "'-'" in i['instance'])) or i['verdict'] != 'OK']
+    c03.check_operator_table(chk, keep=lambda text: 'date' in text and ("'+'" in text or "'-'" in text))
